@@ -172,6 +172,19 @@ def run(ctx):
             break
     ctx.layers.append({"layer": "free-running threads on one aggregator, real evaluator with class groups (single-instance + plain) and a decision "
                                 "threshold, rows = sequential run", "runs": n_thr, "exhaustive": False})
+    # ---- the same with colliding names: every worker submits every name (barrier per name) on a slow disk (files take a few ms to close)
+    n_col = ctx.scale(2, 8)
+    for i in range(n_col):
+        lines, seq, rep = A.thread_smoke(n_workers=4, n_subjects=8, collide=True)
+        ctx.count({"thread_collide": i}, True)
+        ctx.bump("free-running threads, every worker submits every name, slow file close")
+        probs = A.thread_smoke_problems(lines, seq, rep)
+        if probs:
+            ctx.violation("worker threads submitting the same names at the same moment: " + "; ".join(probs[:3]),
+                          {"thread_smoke": True, "collide": True, "file": lines, "sequential": seq, "threads": rep})
+            break
+    ctx.layers.append({"layer": "free-running threads, every worker submits every name at a barrier, file objects of the aggregator module close slowly "
+                                "(3 ms): one row per name, rows = sequential run", "runs": n_col, "exhaustive": False})
     # ---- one aggregator, submissions nested in time: an evaluation that RAISES (or is interrupted) while other submissions complete
     #      inside its window, then the same names again -- every 4-step history over two names, compared step by step with the
     #      sequential model of Model/AggHistory.v (no second session here: that is C17)
@@ -226,7 +239,7 @@ def replay(path):
     if d.get("thread_smoke"):
         rc = 0
         for attempt in range(3):
-            lines, seq, rep = A.thread_smoke()
+            lines, seq, rep = A.thread_smoke(n_workers=4, n_subjects=8, collide=True) if d.get("collide") else A.thread_smoke()
             probs = A.thread_smoke_problems(lines, seq, rep)
             print(f"attempt {attempt + 1}:", probs or "rows equal a sequential run")
             rc |= bool(probs)
